@@ -18,13 +18,17 @@ Record stream := mkStream {
   stoks : list (token * list N)      (* oracle tokens of the undamaged stream with their real bytes *)
 }.
 
-Inductive damage := DFlip (bit : nat) | DTrunc (len : nat) | DBurst (pos : nat) (xors : list N).
+(* positions and byte counts coming from the harness are binary numbers (N): a unary
+   literal of a few thousand per case would dominate the cost of checking the case file *)
+Inductive damage := DFlip (bit : N) | DTrunc (len : N) | DBurst (pos : N) (xors : list N).
 Inductive ocrash := ONone | OOom | OHuge | OHang | OCrash.
 
 Inductive case :=
 | CRound (s : stream) (dests : list nat) (obs : list rres) (cr : ocrash)
 | CDamage (s : stream) (d : damage)
-          (keep : nat) (extra : list (token * nat)) (term : sterm)   (* oracle script of the damaged bytes *)
+          (* oracle script of the damaged bytes: the first [keep] entries of the original script,
+             then [extra], then (if [resume] = Some k) the original entries from index k on; then [term] *)
+          (keep : N) (extra : list (token * N)) (resume : option N) (term : sterm)
           (dests : list nat) (obs : list rres) (cr : ocrash).
 
 (* ---------------------------------------------------------------- equality tests *)
@@ -91,14 +95,18 @@ Fixpoint xor_at (p : list N) (pos : nat) (xs : list N) : list N :=
 
 Definition apply_damage (p : list N) (d : damage) : list N :=
   match d with
-  | DFlip k => flip_bit p k
-  | DTrunc n => firstn n p
-  | DBurst pos xs => xor_at p pos xs
+  | DFlip k => flip_bit p (N.to_nat k)
+  | DTrunc n => firstn (N.to_nat n) p
+  | DBurst pos xs => xor_at p (N.to_nat pos) xs
   end.
 
 (* first damaged byte offset *)
 Definition damage_pos (d : damage) : nat :=
-  match d with DFlip k => Nat.div k 8 | DTrunc n => n | DBurst pos _ => pos end.
+  match d with DFlip k => N.to_nat (N.div k 8) | DTrunc n => N.to_nat n | DBurst pos _ => N.to_nat pos end.
+
+Definition damaged_script (s : stream) (keep : N) (extra : list (token * N)) (resume : option N) : list (token * nat) :=
+  firstn (N.to_nat keep) (orig_script s) ++ map (fun e => (fst e, N.to_nat (snd e))) extra
+  ++ match resume with Some k => skipn (N.to_nat k) (orig_script s) | None => [] end.
 
 (* ---------------------------------------------------------------- mismatches: model vs implementation *)
 Definition has_unknown (l : list rres) : bool :=
@@ -128,10 +136,13 @@ Definition agrees (c : case) : bool :=
       no_crash cr
       && encoder_agrees s
       && list_eqb rres_eqb (model_reads code_cfg s (stream_bytes s) (orig_script s, SIoEOF) dests) obs
-  | CDamage s d keep extra term dests obs cr =>
+  | CDamage s d keep extra resume term dests obs cr =>
       let bytes := apply_damage (stream_bytes s) d in
-      let m := model_reads code_cfg s bytes (firstn keep (orig_script s) ++ extra, term) dests in
-      (match d with DTrunc n => trunc_oracle_ok s n keep (length extra) term | _ => true end)
+      let m := model_reads code_cfg s bytes (damaged_script s keep extra resume, term) dests in
+      (match d with
+       | DTrunc n => trunc_oracle_ok s (N.to_nat n) (N.to_nat keep)
+                       (length extra + match resume with Some _ => 1 | None => 0 end) term
+       | _ => true end)
       && (has_unknown m || (no_crash cr && list_eqb rres_eqb m obs))
   end.
 
@@ -196,7 +207,7 @@ Definition damage_ok (s : stream) (d : damage) (obs : list rres) (cr : ocrash) :
   let k := batch_of s (damage_pos d) in
   let at_batch_end :=
     match d with
-    | DTrunc n => Nat.eqb n 0 || existsb (fun e => Nat.eqb (fst e) n) (batch_ends 0 0 (stoks s))
+    | DTrunc n => N.eqb n 0 || existsb (fun e => Nat.eqb (fst e) (N.to_nat n)) (batch_ends 0 0 (stoks s))
     | _ => false
     end in
   if at_batch_end then
@@ -213,7 +224,7 @@ Definition damage_ok (s : stream) (d : damage) (obs : list rres) (cr : ocrash) :
 Definition holds (c : case) : bool :=
   match c with
   | CRound s dests obs cr => no_crash cr && round_ok (ssch s) (sbatches s) obs
-  | CDamage s d _ _ _ _ obs cr => damage_ok s d obs cr
+  | CDamage s d _ _ _ _ _ obs cr => damage_ok s d obs cr
   end.
 
 Definition mismatches (cs : list case) : list nat := bad_indices agrees cs.
